@@ -30,10 +30,41 @@ class EscapeSem(Semantics):
         self.handler_vars: set[str] = set()
         self.guarded_calls: list[ast.Call] = []
 
+    helpers = None  # callable: dotted callee name -> Func of a private helper of later origin (not on the pinned tree), or None
+    helper_guarded = 0
+    _summaries: dict = {}
+
+    def _helper_safe(self, name: str) -> bool | None:
+        """A helper that was extracted from an entry point: its own escape analysis decides (memoised, recursion = unsafe)."""
+        if self.helpers is None:
+            return None
+        hf = self.helpers(name)
+        if hf is None:
+            return None
+        key = (hf.key, tuple(sorted(self.allowed)))
+        if key not in EscapeSem._summaries:
+            EscapeSem._summaries[key] = None  # in progress
+            params = {a.arg for a in hf.node.args.args}
+            sub = EscapeSem(self.allowed, params, self.safe_funcs)
+            sub.helpers = self.helpers
+            out = Interp(sub).block(hf.node.body, {("ok", None)})
+            kinds = {s[1] for s in out.exc}
+            guarded = sum(1 for t in walk_body(hf.node.body) if isinstance(t, ast.Try) for c in walk_body(t.body) if isinstance(c, ast.Call) and not sub._call_safe(c))
+            EscapeSem._summaries[key] = (all(k in self.allowed for k in kinds), guarded + sub.helper_guarded)
+        res = EscapeSem._summaries[key]
+        if res is None:
+            return False
+        self.helper_guarded += res[1]
+        return res[0]
+
     def _call_safe(self, c: ast.Call) -> bool:
         name = dotted(c.func)
         if name in SAFE_CALLS or name in self.safe_funcs:
             return True
+        if name is not None:
+            hs = self._helper_safe(name)
+            if hs is not None:
+                return hs
         if name is not None and name.split(".")[-1] in self.allowed:
             return True  # constructing the definition error itself
         if isinstance(c.func, ast.Attribute):
@@ -86,19 +117,37 @@ class EscapeSem(Semantics):
         return (("ok", caught if (t and not is_catch_all(h, self)) else (kind if kind != "unknown" else None)),)
 
 
-def escape_kinds(f: Func, allowed: set[str], str_params: set[str], safe_funcs: set[str]) -> tuple[set, int]:
+def escape_kinds(f: Func, allowed: set[str], str_params: set[str], safe_funcs: set[str], helpers=None) -> tuple[set, int]:
     sem = EscapeSem(allowed, str_params, safe_funcs)
+    sem.helpers = helpers
     out = Interp(sem).block(f.node.body, {("ok", None)})
     n_guarded = sum(1 for t in walk_body(f.node.body) if isinstance(t, ast.Try) for c in walk_body(t.body) if isinstance(c, ast.Call) and not sem._call_safe(c))
-    return {(s[1], s[2]) for s in out.exc}, n_guarded
+    sem.helper_guarded = 0
+    for c in walk_body(f.node.body):
+        if isinstance(c, ast.Call) and dotted(c.func):
+            sem._helper_safe(dotted(c.func))  # counts the guarded calls that moved into helpers
+    return {(s[1], s[2]) for s in out.exc}, n_guarded + sem.helper_guarded
 
 
 def r_exc_escape(ck: Checker, entries: list[tuple[str, str, set[str], set[str]]], rule: str = "R-EXC-ESCAPE", min_guarded: int = 5) -> None:
     safe: set[str] = set()
     total_guarded = 0
+    EscapeSem._summaries = {}
     for modname, q, allowed, strp in entries:
         f = ck.repo.func(modname, q)
-        kinds, n_guarded = escape_kinds(f, allowed, strp, safe)
+
+        def helpers(name: str, modname=modname, f=f):
+            # module-level private function or method of the same class that does not exist on the pinned tree
+            m = ck.repo.mod(modname)
+            cands = [name] if "." not in name else []
+            if name.startswith(("self.", "cls.")) and f.cls is not None and name.count(".") == 1:
+                cands.append(f"{f.cls.name}.{name.split('.')[1]}")
+            for qn in cands:
+                if ck.repo.has_func(modname, qn) and ck.repo.is_new_helper(m, qn):
+                    return ck.repo.func(modname, qn)
+            return None
+
+        kinds, n_guarded = escape_kinds(f, allowed, strp, safe, helpers)
         total_guarded += n_guarded
         bad = sorted((k, l) for k, l in kinds if k not in allowed)
         what = f"{q}: no exception other than {sorted(allowed) or 'none'} escapes (every call on the text's data flow is converted by a catch-all handler)"
@@ -129,9 +178,9 @@ def _ladder(fn: ast.FunctionDef) -> list[tuple]:
                 rets = [r for r in walk_body(h.body) if isinstance(r, ast.Return)]
                 kind = []
                 for r in rets:
-                    if isinstance(r.value, ast.Tuple) and len(r.value.elts) == 2:
+                    if isinstance(r.value, ast.Tuple) and len(r.value.elts) >= 2:
                         first = norm(r.value.elts[0])
-                        kind.append(("reject" if first in ("None", "False") else first, norm(r.value.elts[1])))
+                        kind.append(("reject" if first in ("None", "False") else first, norm(r.value.elts[-1])))
                     else:
                         kind.append(("?", norm(r.value) if r.value is not None else "None"))
                 hs.append((dotted(h.type) if h.type is not None else "<bare>", tuple(kind)))
@@ -142,7 +191,18 @@ def _ladder(fn: ast.FunctionDef) -> list[tuple]:
 def r_entry_sibling(ck: Checker) -> None:
     v = ck.repo.func(PAT, "validate_pattern")
     f = ck.repo.func(PAT, "NodeMatcher.from_pattern")
-    lv, lf = _ladder(v.node), _ladder(f.node)
+    def ladder_of(fn_: Func) -> list[tuple]:
+        """The function's own try ladder, or that of the (single) extracted helper it delegates to."""
+        own = _ladder(fn_.node)
+        if own:
+            return own
+        m_ = ck.repo.mod(PAT)
+        for c in walk_body(fn_.node.body):
+            if isinstance(c, ast.Call) and isinstance(c.func, ast.Name) and ck.repo.has_func(PAT, c.func.id) and ck.repo.is_new_helper(m_, c.func.id):
+                return [("via " + c.func.id + "(" + ", ".join(norm(a) for a in c.args) + ")",)] + _ladder(ck.repo.func(PAT, c.func.id).node)
+        return own
+
+    lv, lf = ladder_of(v), ladder_of(f)
     what = "validate_pattern and NodeMatcher.from_pattern have the same ladder: same guarded calls, same handler types, same rejection messages"
     if lv == lf and len(lv) >= 2:
         ck.holds("R-ENTRY-SIBLING", f, f.node, what, ladder_steps=len(lv))
